@@ -34,6 +34,10 @@
 //	          middleware: the logger calls c.App().ErrorHandler itself for an error coming back from
 //	          c.Next() and returns nil; +logskip: the same with a Skip predicate (true for paths of even length)
 //	+sublog   every mounted app uses the logger as its first middleware; +sublogskip: with the Skip predicate
+//	+st<code> the handler that raises the error first sets the response status: c.Status(code)
+//	+pb       … and writes a header (X-Pre: 1) and a body ("pre") before it returns the error
+//	+fh<code> every FAILING error handler first sets c.Status(code); +fb: … and writes the body "part"
+//	          (observation then carries `;xpre=<0|1>`: is the header X-Pre on the final response)
 //	+unesc    root Config.UnescapePath (ctx.Path() is the percent-decoded path)
 //	+ov<hex>  the handler that raises the error (root middleware in mode mw, the mounted app's middleware in
 //	          mode sub<k>, the `/e` endpoint in mode chain) first overrides the path: c.Path(<path>)
@@ -156,6 +160,8 @@ func (e errSpec) make() error {
 type flags struct {
 	custom, cs, strict, subcs, unesc bool
 	log, logskip, sublog, sublogskip bool
+	st, fh                           int // 0 = not set
+	pb, fb                           bool
 	ov                               string // "" = no override
 }
 
@@ -194,6 +200,18 @@ func (m mode) String() string {
 	}
 	if m.sublogskip {
 		s += "+sublogskip"
+	}
+	if m.st != 0 {
+		s += "+st" + strconv.Itoa(m.st)
+	}
+	if m.pb {
+		s += "+pb"
+	}
+	if m.fh != 0 {
+		s += "+fh" + strconv.Itoa(m.fh)
+	}
+	if m.fb {
+		s += "+fb"
 	}
 	if m.unesc {
 		s += "+unesc"
@@ -242,7 +260,23 @@ func decMode(s string) mode {
 			m.sublog = true
 		case "sublogskip":
 			m.sublogskip = true
+		case "pb":
+			m.pb = true
+		case "fb":
+			m.fb = true
 		default:
+			if len(x) == 5 && (x[:2] == "st" || x[:2] == "fh") {
+				code, err := strconv.Atoi(x[2:])
+				if err != nil || code < 200 || code > 599 {
+					panic("bad status flag")
+				}
+				if x[:2] == "st" {
+					m.st = code
+				} else {
+					m.fh = code
+				}
+				continue
+			}
 			if !strings.HasPrefix(x, "ov") || len(x) < 4 {
 				panic("bad flag")
 			}
@@ -439,6 +473,13 @@ func (r *run) raise(c fiber.Ctx) error {
 	if r.md.ov != "" {
 		c.Path(r.md.ov)
 	}
+	if r.md.st != 0 {
+		c.Status(r.md.st)
+	}
+	if r.md.pb {
+		c.Set("X-Pre", "1")
+		_ = c.SendString("pre")
+	}
 	return r.e.make()
 }
 
@@ -449,6 +490,12 @@ func cfgFor(o own, r *run) fiber.Config {
 	return fiber.Config{ErrorHandler: func(c fiber.Ctx, err error) error {
 		r.calls[o.id]++
 		if o.fails {
+			if r.md.fh != 0 {
+				c.Status(r.md.fh)
+			}
+			if r.md.fb {
+				_ = c.SendString("part")
+			}
 			return errors.New("error handler failed")
 		}
 		return c.Status(418).SendString("eh" + strconv.Itoa(o.id) + ":" + err.Error())
@@ -623,7 +670,11 @@ func evalOnce(root *fiber.App, r *run, m int, path string) (out string) {
 	if r.chain == "none" && !strings.Contains(hops, "~E:") && !strings.Contains(hops, "~P:") {
 		return "chain=none" + hops + ";calls=" + callsOf(r)
 	}
-	return "chain=" + r.chain + ";fpath=" + gen.Hex(r.fpath) + hops + ";calls=" + callsOf(r) + ";status=" + strconv.Itoa(fctx.Response.StatusCode()) + ";body=" + gen.Hex(string(fctx.Response.Body()))
+	xpre := ""
+	if r.md.pb {
+		xpre = ";xpre=" + gen.B(len(fctx.Response.Header.Peek("X-Pre")) > 0)
+	}
+	return "chain=" + r.chain + ";fpath=" + gen.Hex(r.fpath) + hops + ";calls=" + callsOf(r) + ";status=" + strconv.Itoa(fctx.Response.StatusCode()) + ";body=" + gen.Hex(string(fctx.Response.Body())) + xpre
 }
 
 func rawRequest(k int, path string) string {
@@ -1160,6 +1211,35 @@ func main() {
 			}
 			md.ov = ov
 		}
+		// what is on the response when the error handler gets it / gives up
+		if !md.log && !md.logskip && !md.sublog && !md.sublogskip {
+			if r.Chance(1, 6) {
+				md.st = gen.Pick(r, []int{409, 403, 404, 500, 200, 302, 503})
+				md.pb = r.Chance(1, 3)
+			}
+			if r.Chance(1, 5) {
+				md.fh = gen.Pick(r, []int{403, 404, 500, 503, 200, 302})
+				md.fb = r.Chance(1, 3)
+			} else if r.Chance(1, 12) {
+				md.fb = true
+			}
+		}
+		if md.st != 0 || md.fh != 0 || md.fb {
+			// more failing handlers where it matters what they leave on the response
+			var walk func(ns []*node)
+			walk = func(ns []*node) {
+				for _, n := range ns {
+					if n.own.set && r.Chance(1, 3) {
+						n.own.fails = true
+					}
+					walk(n.children)
+				}
+			}
+			walk(ns)
+			if rootOwn.set && r.Chance(1, 3) {
+				rootOwn.fails = true
+			}
+		}
 		// where the error comes from
 		switch x := r.Intn(24); {
 		case x < 4:
@@ -1185,9 +1265,11 @@ func main() {
 			}
 			md.ov = ""
 			md.log, md.logskip, md.sublog, md.sublogskip = false, false, false, false
+			md.st, md.pb, md.fh, md.fb = 0, false, 0, false
 		case x == 11:
 			md.ov = ""
 			md.log, md.logskip, md.sublog, md.sublogskip = false, false, false, false
+			md.st, md.pb, md.fh, md.fb = 0, false, 0, false
 			md.base, md.k = "net", r.Intn(6)
 		}
 		emit(w, fmt.Sprintf("s%d.%d", o.Seed, i), rootOwn, ns, gen.Pick(r, []int{0, 0, 0, 0, 2}), path, md, e)
